@@ -117,6 +117,45 @@ pub fn c17_one_send_reset_open() {
     std::mem::forget(w);
 }
 
+/// C17.one / C17.code / C16.total / C06: explicit reset of an open stream with an empty queue,
+/// with the stream's deque as a ghost (`Deque::push_back` records the appended frame - no
+/// slab traffic; the slab-backed form of this query exhausts 44 GB).
+pub fn c17_one_send_reset_open_ghost() {
+    let mut w = sworld(3, true);
+    let (cwv, ca, others, _sw, a, _req) = sym_ledgers(&mut w);
+    let code: u32 = kani::any();
+    let init = if kani::any() { Initiator::User } else { Initiator::Library };
+    w.task = Some(cw::waker(3));
+    let wakes0 = cw::wakes(3);
+    unsafe { buf_h::G_BACK_RESETS = (0, 0, 0) };
+    {
+        let mut p = w.store.resolve(w.key);
+        w.send.send_reset(code.into(), init, &mut w.buffer, &mut p, &mut w.counts, &mut w.task);
+    }
+    {
+        let mut p = w.store.resolve(w.key);
+        assert!(p.state.is_reset() && p.state.is_local_error(), "stream not marked reset");
+        let pr = p.state.ensure_reason(PollReset::Streaming);
+        match &pr {
+            Ok(Some(r)) => assert!(u32::from(*r) == code, "C17.code: recorded reset code differs from the caller's"),
+            _ => panic!("reset not recorded"),
+        }
+        std::mem::forget(pr);
+        let g = unsafe { buf_h::G_BACK_RESETS };
+        assert!(g.0 == 1, "C17.one: not exactly one RST_STREAM queued for an open stream");
+        assert!(g.1 == ID && g.2 == code, "C17.code: RST_STREAM code/stream");
+        assert!(p.is_pending_send, "C06.Q2: RST_STREAM queued but stream not scheduled");
+        let (_, a2) = fc_h::get(&p.send_flow);
+        assert!(a2 == 0, "reset stream keeps send capacity");
+    }
+    let (cw2, ca2) = prio_h::conn_flow(&w.send.prioritize);
+    assert!(cw2 == cwv && ca2 as i64 == ca as i64 + a as i64 && ca2 as i64 + others == cw2 as i64, "C16.total: capacity of a reset stream leaked");
+    assert!(cw::wakes(3) == wakes0 + 1 && w.task.is_none(), "C06.Q3: connection task not woken for the RST_STREAM");
+    kani::cover!(a > 0, "capacity_returned");
+    kani::cover!(true, "end");
+    std::mem::forget(w);
+}
+
 /// C17.one: resetting a stream that closed cleanly and flushed everything puts nothing
 /// on the wire; resetting an already reset stream changes nothing.
 fn send_reset_closed(shape: u8) {
@@ -172,6 +211,40 @@ pub fn c17_one_send_reset_closed_unflushed() {
         None => panic!("C17.one: no RST_STREAM for a stream that still had unsent frames"),
     }
     assert!(p.pending_send.is_empty() && p.buffered_send_data == 0);
+    assert!(p.is_pending_send, "C06.Q2: RST_STREAM queued but stream not scheduled");
+    kani::cover!(true, "end");
+    std::mem::forget(w);
+}
+
+/// Ghost-deque form of `c17_one_send_reset_closed_unflushed` (quick tier): the stream's deque
+/// claims one unsent DATA+END_STREAM frame (`Deque::pop_front` hands it out, `push_back`
+/// records the RST_STREAM and requires the queue to have been emptied first).
+pub fn c17_one_send_reset_closed_unflushed_ghost() {
+    let mut w = sworld(6, false);
+    let (_cwv, _ca, _others, _sw, _a, _req) = sym_ledgers(&mut w);
+    let sz: usize = kani::any();
+    kani::assume(sz >= 1 && sz <= 0x7fff_ffff);
+    unsafe {
+        buf_h::G_DATA = (0, sz, true);
+        buf_h::G_BACK_RESETS = (0, 0, 0);
+    }
+    {
+        let mut p = w.store.resolve(w.key);
+        p.pending_send = buf_h::fake_nonempty();
+        p.buffered_send_data = sz;
+        // blocked: not in the prioritizer's send queue
+        assert!(!p.is_pending_send);
+    }
+    let code: u32 = kani::any();
+    {
+        let mut p = w.store.resolve(w.key);
+        w.send.send_reset(code.into(), Initiator::User, &mut w.buffer, &mut p, &mut w.counts, &mut w.task);
+    }
+    let p = w.store.resolve(w.key);
+    let g = unsafe { buf_h::G_BACK_RESETS };
+    assert!(g.0 == 1, "C17.one: no RST_STREAM (or more than one) for a closed stream that still had unsent frames");
+    assert!(g.1 == ID && g.2 == code, "C17.code");
+    assert!(p.buffered_send_data == 0);
     assert!(p.is_pending_send, "C06.Q2: RST_STREAM queued but stream not scheduled");
     kani::cover!(true, "end");
     std::mem::forget(w);
